@@ -510,6 +510,9 @@ func genModule(dir string, rnd *hx.Rand, files map[string]string) []string {
 			}
 		}
 		b.WriteString("\treturn n\n}\n\n")
+		// two different problems at one position (SA4018 and SA4006 on `x = x`): their printed order is decided by
+		// the later fields of the sort key only
+		fmt.Fprintf(&b, "// Tie%d has two problems at one position.\nfunc Tie%d(n int) int {\n\tx := n\n\tx = x\n\tx = %d\n\treturn x\n}\n\n", pi, pi, pi)
 		nf := 2 + rnd.Intn(4)
 		for k := 0; k < nf; k++ {
 			sn := snippets[rnd.Intn(len(snippets))]
